@@ -33,7 +33,7 @@ For each change k = 1..{n} create the directory {wt}/_mut/k/ containing:
   demo.py     - a small standalone program (run as: cd {wt} && /venv/bin/python _mut/k/demo.py) that exits 0 on the unmodified
                 library and exits non-zero (assertion failure) with the change applied; it must demonstrate a violation of the
                 property as stated (not merely a behavioural difference), and must not depend on the working directory contents
-                other than importing hdl21 from the current directory
+                other than importing hdl21 from the current directory (start it with `import sys, os; sys.path.insert(0, os.getcwd())` - a script run by path has its own directory, not the current one, at the head of sys.path and would silently import another copy - and assert that hdl21.__file__ is under os.getcwd())
   notes.md    - 5-10 lines: what was changed, why the tests do not notice, what exactly is needed for the violation to manifest
 Develop one change at a time: apply it, run the test suite, run the demo (must fail), then undo it with `git apply -R _mut/k/patch.diff` (never `git stash`: the stash is shared between worktrees),
 run the demo again on clean HEAD (must pass), and make sure the worktree's tracked files are back to HEAD before starting the
